@@ -20,10 +20,11 @@ import CnvVerif.Driver.Vcf
 import CnvVerif.Driver.Descriptives
 import CnvVerif.Driver.Haar
 import CnvVerif.Driver.Stats
+import CnvVerif.Driver.StatsGlue
 open Lean CnvVerif.Drv
 
 def handlers : List (String → Json → Option Json → R (Option Json)) :=
-  [handleInterval, handleCall, handleCallCmd, handleSegFilter, handleTile, handleCenter, handleFix, handleAccess, Genes.handleGenes, handleFormats, handleExport, handleExportExt, Reference.handleReference, handleCoverage, handleCoverageExt, handleEffects, handleBins, handleVcf, handleDescriptives, Haar.handleHaar, handleStats]
+  [handleInterval, handleCall, handleCallCmd, handleSegFilter, handleTile, handleCenter, handleFix, handleAccess, Genes.handleGenes, handleFormats, handleExport, handleExportExt, Reference.handleReference, handleCoverage, handleCoverageExt, handleEffects, handleBins, handleVcf, handleDescriptives, Haar.handleHaar, handleStats, handleStatsGlue]
 
 def dispatch (op : String) (inp : Json) (impl : Option Json) : R Json := do
   for h in handlers do
